@@ -534,13 +534,16 @@ Proof.
   intros F S. destruct (gen_total bs [] [] F (or_intror S)) as [r E]. exists r. unfold generate. rewrite E. reflexivity.
 Qed.
 
-(* D27, D28 (open): elements of supported types, of shapes pandoc emits, that are rejected *)
+(* D28 (open): an element of a supported type, of a shape pandoc emits, that is rejected; D27 (inline images with
+   another title than "fig:" or without alt text) was repaired in /repo: the badge document now converts *)
 Definition badge_doc : list block :=
   [h 1 "T"; Para [Str (s "build"); Space; Image (s "", [], []) [Str (s "badge")] (s "https://x/y.svg") (s "")]].
 Definition headerless_table_doc : list block :=
   [h 1 "T"; TableNew [] [[[[Plain [Str (s "a")]]; [Plain [Str (s "b")]]]]]].
 
 Theorem generate_total_refuted :
-  starts_with_header badge_doc /\ generate badge_doc = Raise EValue /\
   starts_with_header headerless_table_doc /\ generate headerless_table_doc = Raise EOther.
 Proof. repeat split; vm_compute; reflexivity. Qed.
+Theorem badge_doc_converts :
+  starts_with_header badge_doc /\ exists card, generate badge_doc = Ok card.
+Proof. split; [vm_compute; reflexivity | eexists; vm_compute; reflexivity]. Qed.
